@@ -530,6 +530,8 @@ namespace cgi {
 			}
 
 			std::ostringstream ss;
+			// the chunk size must not follow a global locale with digit grouping
+			ss.imbue(std::locale::classic());
 			ss << std::hex << in.bytes_count() << "\r\n";
 			chunked_header_ = std::move(ss.str());
 			char const *trailer = "\r\n";
